@@ -28,7 +28,7 @@ func (g *gateWalletStore) BroadcastedSets() ([]wallet.BroadcastedSet, error) {
 	g.mu.Lock()
 	g.calls++
 	var ch chan struct{}
-	if g.armed {
+	if g.armed && g.calls >= 2 { // call 1 is the constructor's
 		ch = make(chan struct{})
 		g.entries = append(g.entries, ch)
 	}
@@ -64,15 +64,12 @@ func walletRun(rng *rand.Rand, res *hx.Result, runNo int) ([]Event, error) {
 		return nil, err
 	}
 	cm := chain.NewManager(db, ts)
-	ws := &gateWalletStore{EphemeralWalletStore: testutil.NewEphemeralWalletStore()}
+	ws := &gateWalletStore{EphemeralWalletStore: testutil.NewEphemeralWalletStore(), armed: true}
 	const debounce = 5 * time.Millisecond
 	w, err := wallet.NewSingleAddressWallet(types.GeneratePrivateKey(), cm, ws, &testutil.MockSyncer{}, wallet.WithDebounceInterval(debounce))
 	if err != nil {
 		return nil, err
 	}
-	ws.mu.Lock()
-	ws.armed = true
-	ws.mu.Unlock()
 	rec := &recorder{}
 	rec.emit(Event{Op: "Reset", Fam: "tg", Lim: limMap(1, 0, 0, 0, func(p int) string { return "s1" }), Tag: fmt.Sprintf("wallet%d", runNo)})
 	mode := runNo % 3 // 0: Close while the goroutine works; 1: Close while it is idle; 2: Close at once
